@@ -3,6 +3,6 @@ from ..composite import Composite
 from ..e1 import E1Part
 from .C03_map import PART as MAP
 
-E1 = E1Part("C03", [("mixed", 2), ("notimeout", 1), ("contain", 1), ("timeouts", 2), ("leak", 1)], ["C03"],
+E1 = E1Part("C03", [("mixed", 2), ("notimeout", 1), ("contain", 1), ("timeouts", 2), ("leak", 1), ("concurrent", 2)], ["C03"],
             ["LokyModel.Props.C03"], quick=1400, thorough=40000)
 PROP = Composite("C03", [MAP, E1])
